@@ -84,6 +84,24 @@ def firstRun (cfg : Cfg) (all migrations : List MFile) : Result :=
     let pend := filesFromLastCheckpoint all
     ⟨none, if pend.isEmpty then .error .noPending else .ok pend⟩
 
+/-- The files between the first and the last revision that have no revision (`skipped` in the Go
+code); `none` when the window is not examined at all (no file at or after the first revision, or
+`ExecOrderLinearSkip`). `idx` is the index of the first pending file. -/
+def outOfOrder (cfg : Cfg) (migrations : List MFile) (revs : List Revision) (r0 : Revision) (idx : Nat) :
+    Option (List MFile) :=
+  match indexFunc (fun f => f.version ≥ r0.version) (migrations.take idx) with
+  | some first =>
+    if first < idx && cfg.order != .linearSkip then
+      some (((migrations.take idx).drop first).filter
+        (fun f => !(bsearch (fun (r : Revision) => r.version < f.version)
+                            (fun (r : Revision) => r.version == f.version) revs).2))
+    else none
+  | none => none
+
+/-- `if len(pending) == 0 { return nil, ErrNoPendingFiles }`. -/
+def finish (p : List MFile) : Except Err (List MFile) :=
+  if p.isEmpty then .error .noPending else .ok p
+
 /-- The body of `case len(migrations) > 0` (also reached by `fallthrough`). -/
 def normal (cfg : Cfg) (migrations : List MFile) (revs : List Revision) (r0 last : Revision) :
     Except Err (List MFile) :=
@@ -95,18 +113,7 @@ def normal (cfg : Cfg) (migrations : List MFile) (revs : List Revision) (r0 last
   | some idx0 =>
     let idx := if last.applied == last.total then idx0 + 1 else idx0
     let pend := migrations.drop idx
-    let window : Option (List MFile) :=
-      match indexFunc (fun f => f.version ≥ r0.version) (migrations.take idx) with
-      | some first =>
-        if first < idx && cfg.order != .linearSkip then
-          some (((migrations.take idx).drop first).filter
-            (fun f => !(bsearch (fun (r : Revision) => r.version < f.version)
-                                (fun (r : Revision) => r.version == f.version) revs).2))
-        else none
-      | none => none
-    let finish (p : List MFile) : Except Err (List MFile) :=
-      if p.isEmpty then .error .noPending else .ok p
-    match window with
+    match outOfOrder cfg migrations revs r0 idx with
     | none => finish pend
     | some [] => finish pend
     | some skipped =>
